@@ -100,6 +100,24 @@ pub fn handle(op: &str, args: &[&str], _text: &str) -> Option<String> {
             let (n, sum, xor) = get_val(acc);
             Some(format!("{n} {sum:016x} {xor:016x}"))
         },
+        ("treelisttask", [s, c, h, l, i]) => {
+            // the programs of that sub-tree, `;`-joined (search side only)
+            let params = (num(s), num(c));
+            let (ms, mc) = (num(s).min(3), num(c).min(3));
+            let idx = num(i);
+            let per_color = 2 * ms;
+            if idx >= mc * per_color {
+                return Some("BAD-ARGS".to_owned());
+            }
+            let want = (idx / per_color, (idx % per_color) / ms == 1, idx % ms);
+            let acc = set_val(Vec::<String>::new());
+            build_tree(params, num(h) != 0, num(l), &|comp| {
+                if comp.get(&(1, 0)) == Some(&want) {
+                    access(&acc).push(comp.show(Some(params)));
+                }
+            });
+            Some(get_val(acc).join(";"))
+        },
         ("treethreadshash", [t, s, c, h, l]) => {
             // the same harvest as `treehash`, under a pool with that many threads
             let params = (num(s), num(c));
